@@ -502,11 +502,13 @@ class GMMMachine(BaseEstimator):
         self._g_norms = None
 
         if self.ubm is not None:
-            self.means = copy.deepcopy(self.ubm.means)
-            self.variances = copy.deepcopy(self.ubm.variances)
+            # The floors first: the variances setter clamps with the floors in
+            # force, which until here are `mean_var_update_threshold`
             self.variance_thresholds = copy.deepcopy(
                 self.ubm.variance_thresholds
             )
+            self.means = copy.deepcopy(self.ubm.means)
+            self.variances = copy.deepcopy(self.ubm.variances)
             self.weights = copy.deepcopy(self.ubm.weights)
         else:
             self.weights = np.full(
